@@ -275,6 +275,9 @@ def _single_merge_cases(tier, rng):
                      '<mosExternalMetadata><mosPayload><c>1</c></mosPayload></mosExternalMetadata><mosExternalMetadata><mosPayload><c>2</c></mosPayload></mosExternalMetadata>',
                      '<roEdStart>2021-02-03T04:05:06</roEdStart><roTrigger>t2</roTrigger>',
                      '<roSlug>new slug</roSlug>', '<roSlug>s2</roSlug><roChannel>ch</roChannel>',
+                     # carried elements with attributes / children replacing a text-only element, and the other way round
+                     '<roSlug kind="working" lang="en">attr slug</roSlug>', '<roTrigger><when>now</when><by>op</by></roTrigger>',
+                     '<roTrigger mode="auto"/>', '<roEdStart/>',
                      '<mosExternalMetadata><mosSchema>http://x/ro</mosSchema><mosPayload><a>2</a></mosPayload></mosExternalMetadata>',
                      '<mosExternalMetadata><mosSchema>http://other</mosSchema><mosPayload><b>9</b></mosPayload></mosExternalMetadata>'):
             yield dict(kind='MetaDataReplace', args=dict(body=body), ro=ro, level='meta')
